@@ -94,6 +94,7 @@ type Run struct {
 	cycle  int
 	fired  map[string]int
 	oracle []Oracle
+	Pre    *CycleState // API state captured at the start of the current cycle
 }
 
 type Oracle interface {
@@ -282,6 +283,7 @@ func (r *Run) apply(op Op) {
 		r.API.mu.Lock()
 		r.API.Cycle = r.cycle
 		r.API.mu.Unlock()
+		r.Pre = CaptureState(r.API)
 		panicked := r.Sched.RunCycle(r.cycle)
 		synctest.Wait()
 		r.API.Flush()
